@@ -185,7 +185,7 @@ def oracle_stream_content(case, impl):
 
 
 def oracle_datagram_sizes(case, impl):
-    """C14: no datagram larger than the link MTU allows; C11: every emitted datagram is version 1."""
+    """C14: no datagram larger than the link MTU allows."""
     tr = Trace(case, impl)
     hits = []
     for ev in tr.events:
@@ -1428,6 +1428,61 @@ def oracle_acked_not_resent(case, impl):
     return hits
 
 
+def oracle_wire_wellformed(case, impl):
+    """C11 on the connection's own output: every emitted datagram is a well-formed version-1 uTP packet - known
+    type, extension chain that terminates exactly inside the datagram, selective-ACK extension of at least 4 bytes
+    and a multiple of 4, payload on ST_DATA only (and at least one byte there) - and all of them carry one and the
+    same connection id (the id owed to that direction)."""
+    import re
+    hits = []
+    cid = None
+    for op, out in zip(case, impl):
+        t = op.split()
+        if len(t) >= 2 and t[0] == "vs" and t[1] == "new":
+            cid = None
+        if len(t) < 2 or t[0] != "vs" or t[1] != "poll" or "out=[" not in out:
+            continue
+        for hx in [x for x in out.split("out=[", 1)[1].split("]", 1)[0].split(",") if x]:
+            b = bytes.fromhex(hx)
+            why = None
+            if len(b) < 20:
+                why = f"only {len(b)} bytes"
+            elif b[0] & 0xF != 1:
+                why = f"version {b[0] & 0xF}"
+            elif b[0] >> 4 > 4:
+                why = f"type {b[0] >> 4}"
+            else:
+                pos, ext = 20, b[1]
+                while ext != 0 and why is None:
+                    if pos + 2 > len(b):
+                        why = "extension chain runs past the end"
+                        break
+                    nxt, ln = b[pos], b[pos + 1]
+                    if pos + 2 + ln > len(b):
+                        why = "extension longer than the datagram"
+                    elif ext == 1 and (ln < 4 or ln % 4 != 0):
+                        why = f"selective-ACK extension of {ln} bytes"
+                    pos += 2 + ln
+                    ext = nxt
+                if why is None:
+                    plen = len(b) - pos
+                    if b[0] >> 4 == 0 and plen == 0:
+                        why = "ST_DATA without payload"
+                    elif b[0] >> 4 != 0 and plen != 0:
+                        why = f"{plen} payload bytes on a packet of type {b[0] >> 4}"
+            if why is None:
+                c = int.from_bytes(b[2:4], "big")
+                if cid is None:
+                    cid = c
+                elif c != cid:
+                    why = f"connection id {c}, earlier datagrams of this connection carried {cid}"
+            if why:
+                hits.append({"sig": {"oracle": "wire_out", "what": "malformed_datagram_emitted"},
+                             "text": f"`{op}` emitted {hx[:60]}…: {why}"})
+                return hits
+    return hits
+
+
 def oracle_eof_honest(case, impl):
     """C03: a reader sees a clean end-of-stream only after the peer's FIN: never when no FIN was ever received
     (connection aborted, channel from the socket lost, cancelled): then reads must report an error."""
@@ -1587,6 +1642,7 @@ def oracle_window_reopen(case, impl):
 
 
 ALL = {
+    "wire_wellformed": oracle_wire_wellformed,
     "karn": oracle_karn,
     "acked_not_resent": oracle_acked_not_resent,
     "read_content": oracle_read_content,
